@@ -32,6 +32,7 @@ def _scenarios(w):
          ('cancelled head, new entry behind it', [10, 20], [0], 30), ('cancelled head, new entry in front', [10, 20], [0], 5),
          ('cancelled head only', [10], [0], 30), ('cancelled non-head', [10, 20, 30], [1], 25), ('equal deadlines', [10, 10], [], 10),
          ('two cancelled heads', [10, 11, 20], [0, 1], 40)]
+  out += [('fractional deadline, empty queue', [], [], 5.3), ('two deadlines of one tick, scheduled in reverse raw order', [10.35], [], 10.15)]
   d = (w.get('params', {}) if isinstance(w, dict) else {}).get('deadline')
   if isinstance(d, (int, float)) and -1000 < d < 1000:
     out.append(('witness deadline %r behind a cancelled head' % d, [d - 1, d + 1], [0], d))
@@ -41,7 +42,7 @@ def _scenarios(w):
 def replay_schedule(w, rec):
   bad = []
   for desc, pending, cancelled, new in _scenarios(w):
-    for res in (0, 1):
+    for res in (0, 1, 0.5):
       q = make_queue(res)
       cancels = [q.Schedule(t, (lambda: None)) for t in pending]
       entries = list(q._queue)
@@ -65,6 +66,8 @@ def replay_schedule(w, rec):
         bad.append('%s (resolution %s): %d entries added' % (desc, res, len(added)))
       elif added[0][0] < new or (not res and added[0][0] != new) or (res and added[0][0] - new >= res):
         bad.append('%s (resolution %s): deadline %s stored as %s' % (desc, res, new, added[0][0]))
+      if res and len(added) == 1 and abs(added[0][0] / float(res) - round(added[0][0] / float(res))) > 1e-9:
+        bad.append('%s (resolution %s): deadline %s stored as %s, not a whole number of ticks -- entries of one tick no longer tie, so they run in raw-deadline order instead of scheduling order' % (desc, res, new, added[0][0]))
       if q._seq != seq0 + 1:
         bad.append('%s: sequence number went %d -> %d' % (desc, seq0, q._seq))
       if not _heap_ok(q._queue):
@@ -94,7 +97,31 @@ def replay_cancel(w, rec):
   return bool(bad), '\n'.join(bad) or 'cancel marks only its own entry'
 
 
+def replay_init(w, rec):
+  import gevent
+  bad = []
+  for res in (0, 0.5, 1):
+    clock = lambda: 0.0
+    q = T.TimerQueue(time_source=clock, resolution=res)
+    try:
+      if q._queue != []:
+        bad.append('a new queue (resolution %s) already holds %d entries' % (res, len(q._queue)))
+      if q._event.is_set():
+        bad.append('a new queue (resolution %s) starts with its event set: the worker peeks an empty queue' % res)
+      if q._seq != 0:
+        bad.append('a new queue starts at sequence number %r' % (q._seq,))
+      if q._resolution != res or q._time_source is not clock:
+        bad.append('constructor arguments not stored (resolution %r -> %r)' % (res, q._resolution))
+      if not isinstance(q._worker, gevent.Greenlet):
+        bad.append('no worker greenlet was spawned')
+    finally:
+      if isinstance(q._worker, gevent.Greenlet):
+        q._worker.kill(block=False)
+  return bool(bad), '\n'.join(bad) or 'a new queue is empty, quiet and has a worker'
+
+
 REPLAYS = {
+  'TimerQueue.__init__': replay_init,
   'TimerQueue.Schedule': replay_schedule,
   'TimerQueue.Schedule.cancel': replay_cancel,
 }
